@@ -107,3 +107,204 @@ Proof.
   apply read_opts_inv in Eo.
   destruct e; cbn [snd]; lia.
 Qed.
+
+(* ------------------------------------------------------------ correct *)
+(* what readCapabilities does with one capability *)
+Definition step_cap (r : open_result) (c : cap) : open_result :=
+  if c_code c =? 65 then
+    {| r_asn := be (c_val c) 0; r_hold := r_hold r; r_mp4 := r_mp4 r; r_mp6 := r_mp6 r; r_fbasn := true |}
+  else if c_code c =? 1 then
+    let afi := be (firstn 2 (c_val c)) 0 in let safi := be (skipn 2 (c_val c)) 0 in
+    {| r_asn := r_asn r; r_hold := r_hold r; r_mp4 := r_mp4 r || ((afi =? 1) && (safi =? 1));
+       r_mp6 := r_mp6 r || ((afi =? 2) && (safi =? 1)); r_fbasn := r_fbasn r |}
+  else r.
+
+Lemma takeN_app a r : takeN (len a) (a ++ r) = a.
+Proof. unfold takeN, len. rewrite Nat2N.id, firstn_app, Nat.sub_diag, firstn_all. cbn. apply app_nil_r. Qed.
+Lemma dropN_app a r : dropN (len a) (a ++ r) = r.
+Proof. unfold dropN, len. rewrite Nat2N.id, skipn_app, Nat.sub_diag, skipn_all. reflexivity. Qed.
+
+Lemma read_caps_cons fuel c tail n1 n2 r :
+  wf_cap c -> 2 + len (c_val c) <= n2 -> n2 <= n1 ->
+  read_caps (S fuel) (ser_cap c ++ tail) n1 n2 r =
+  read_caps fuel tail (n1 - (2 + len (c_val c))) (n2 - (2 + len (c_val c))) (step_cap r c).
+Proof.
+  intros Hwf H2 H1. destruct c as [code v]. cbn [c_code c_val] in *. unfold wf_cap in Hwf. cbn [c_code c_val] in Hwf.
+  unfold ser_cap. cbn [c_code c_val app].
+  cbn [read_caps]. rewrite got2.
+  assert (Hl : len (code :: len v :: v ++ tail) = 2 + len v + len tail).
+  { rewrite !len_cons, len_app. lia. }
+  replace (N.min n2 (N.min n1 (N.min 2 (len (code :: len v :: v ++ tail))))) with 2 by lia.
+  change (takeN 2 (code :: len v :: v ++ tail)) with [code; len v].
+  change (dropN 2 (code :: len v :: v ++ tail)) with (v ++ tail).
+  cbn [N.eqb Pos.eqb nth]. unfold step_cap. cbn [c_code c_val].
+  destruct ((code =? 65) || (code =? 1)) eqn:Ec.
+  - assert (Hv : len v = 4) by (apply Hwf; lia).
+    rewrite got3. rewrite Hv.
+    replace (N.min 4 (N.min (n2 - 2) (N.min (n1 - 2) (N.min 4 (len (v ++ tail)))))) with 4
+      by (rewrite len_app; lia).
+    change (full_err 4 4) with (@None rerr). cbv iota. change (4 - 4 =? 0) with true. cbv iota.
+    assert (Et : takeN 4 (v ++ tail) = v) by (rewrite <- Hv; apply takeN_app).
+    assert (Ed : dropN 4 (v ++ tail) = tail) by (rewrite <- Hv; apply dropN_app).
+    rewrite !Et, !Ed.
+    replace (n1 - 2 - 4) with (n1 - (2 + 4)) by lia. replace (n2 - 2 - 4) with (n2 - (2 + 4)) by lia.
+    destruct (code =? 65) eqn:E65; [reflexivity|].
+    replace (code =? 1) with true by lia. reflexivity.
+  - rewrite got2.
+    replace (N.min (n2 - 2) (N.min (n1 - 2) (N.min (len v) (len (v ++ tail))))) with (len v)
+      by (rewrite len_app; lia).
+    rewrite N.sub_diag. change (0 =? 0) with true. cbv iota. rewrite dropN_app.
+    replace (n1 - 2 - len v) with (n1 - (2 + len v)) by lia.
+    replace (n2 - 2 - len v) with (n2 - (2 + len v)) by lia.
+    replace (code =? 65) with false by lia. replace (code =? 1) with false by lia. reflexivity.
+Qed.
+
+Lemma len_ser_cap c : len (ser_cap c) = 2 + len (c_val c).
+Proof. unfold ser_cap. rewrite len_app. reflexivity. Qed.
+
+Lemma read_caps_ser cs : forall fuel rest n1 r,
+  Forall wf_cap cs -> (length cs < fuel)%nat -> len (concat (map ser_cap cs)) <= n1 ->
+  read_caps fuel (concat (map ser_cap cs) ++ rest) n1 (len (concat (map ser_cap cs))) r =
+  (None, rest, n1 - len (concat (map ser_cap cs)), 0, fold_left step_cap cs r).
+Proof.
+  induction cs as [|c cs IH]; intros fuel rest n1 r Hwf Hf Hn.
+  - destruct fuel as [|fuel]; [cbn in Hf; lia|]. cbn [map concat app fold_left].
+    cbn [read_caps]. rewrite got2. change (len (@nil N)) with 0.
+    replace (N.min 0 (N.min n1 (N.min 2 (len rest)))) with 0 by lia.
+    cbn [N.eqb]. rewrite !N.sub_0_r. reflexivity.
+  - inversion Hwf; subst. destruct fuel as [|fuel]; [cbn in Hf; lia|].
+    cbn [map concat fold_left] in *. rewrite len_app, len_ser_cap in *.
+    rewrite <- app_assoc. rewrite read_caps_cons by (assumption || lia).
+    replace (2 + len (c_val c) + len (concat (map ser_cap cs)) - (2 + len (c_val c)))
+      with (len (concat (map ser_cap cs))) by lia.
+    rewrite IH by (assumption || (cbn in Hf; lia) || lia).
+    f_equal. f_equal. f_equal. lia.
+Qed.
+
+Lemma length_caps_le cs : (length cs <= length (concat (map ser_cap cs)))%nat.
+Proof.
+  induction cs as [|c cs IH]; [cbn; lia|]. cbn [map concat length]. rewrite app_length.
+  unfold ser_cap at 1. cbn [app length]. lia.
+Qed.
+
+Lemma length_params_le ps : (length ps <= length (concat (map ser_param ps)))%nat.
+Proof.
+  induction ps as [|p ps IH]; [cbn; lia|]. cbn [map concat length]. rewrite app_length.
+  destruct p; cbn [ser_param app length]; lia.
+Qed.
+
+Definition caps_only (p : param) : Prop := exists cs, p = PCaps cs /\ Forall wf_cap cs.
+Definition param_caps (p : param) : list cap := match p with PCaps cs => cs | POther _ _ => [] end.
+
+Lemma read_opts_ser ps : forall fuel extra r,
+  Forall caps_only ps -> (length ps < fuel)%nat ->
+  read_opts fuel (concat (map ser_param ps) ++ extra) (len (concat (map ser_param ps))) r =
+  (None, extra, 0, fold_left step_cap (concat (map param_caps ps)) r).
+Proof.
+  induction ps as [|p ps IH]; intros fuel extra r Hwf Hf.
+  - destruct fuel as [|fuel]; [cbn in Hf; lia|]. cbn [map concat app fold_left].
+    cbn [read_opts]. rewrite got1. change (len (@nil N)) with 0.
+    replace (N.min 0 (N.min 2 (len extra))) with 0 by lia. reflexivity.
+  - inversion Hwf as [|? ? (cs & -> & Hcs) Hps]; subst. destruct fuel as [|fuel]; [cbn in Hf; lia|].
+    cbn [map concat param_caps ser_param]. set (B := concat (map ser_cap cs)).
+    set (T := concat (map ser_param ps)).
+    rewrite fold_left_app.
+    replace (([2; len B] ++ B) ++ T) with (2 :: len B :: B ++ T) by reflexivity.
+    cbn [app]. cbn [read_opts]. rewrite got1.
+    assert (Hl : len (2 :: len B :: B ++ T) = 2 + len B + len T) by (rewrite !len_cons, len_app; lia).
+    assert (Hl' : len (2 :: len B :: (B ++ T) ++ extra) = 2 + len B + len T + len extra)
+      by (rewrite !len_cons, !len_app; lia).
+    rewrite Hl.
+    replace (N.min (2 + len B + len T) (N.min 2 (len (2 :: len B :: (B ++ T) ++ extra)))) with 2 by lia.
+    change (takeN 2 (2 :: len B :: (B ++ T) ++ extra)) with [2; len B].
+    change (dropN 2 (2 :: len B :: (B ++ T) ++ extra)) with ((B ++ T) ++ extra).
+    cbn [N.eqb Pos.eqb nth negb]. rewrite <- app_assoc.
+    assert (Hrc := read_caps_ser cs (S (length (B ++ T ++ extra))) (T ++ extra) (2 + len B + len T - 2) r Hcs).
+    fold B in Hrc. rewrite Hrc; [| |lia].
+    2:{ rewrite app_length. pose proof (length_caps_le cs) as Hle. fold B in Hle. lia. }
+    fold B. cbn [N.eqb]. cbv iota.
+    replace (2 + len B + len T - 2 - len B) with (len T) by lia.
+    unfold T. rewrite IH by (assumption || (cbn in Hf; lia)). reflexivity.
+Qed.
+
+(* the accumulated result is what RFC 5492/6793/4760 say the OPEN means *)
+Lemma fold_step_cap cs : forall r, Forall wf_cap cs ->
+  fold_left step_cap cs r =
+  {| r_asn := fold_left (fun acc c => match cap_as4 c with Some a => a | None => acc end) cs (r_asn r);
+     r_hold := r_hold r;
+     r_mp4 := r_mp4 r || existsb (cap_is_mp 1 1) cs;
+     r_mp6 := r_mp6 r || existsb (cap_is_mp 2 1) cs;
+     r_fbasn := r_fbasn r || existsb (fun c => match cap_as4 c with Some _ => true | None => false end) cs |}.
+Proof.
+  induction cs as [|c cs IH]; intros r Hwf.
+  - cbn. rewrite !orb_false_r. destruct r; reflexivity.
+  - inversion Hwf as [|? ? Hc Hcs]; subst. cbn [fold_left existsb]. rewrite IH by assumption.
+    unfold step_cap, cap_as4, cap_is_mp. unfold wf_cap in Hc.
+    destruct (c_code c =? 65) eqn:E65.
+    + rewrite Hc by lia. replace (c_code c =? 1) with false by lia.
+      cbn [N.eqb Pos.eqb andb orb r_asn r_hold r_mp4 r_mp6 r_fbasn]. rewrite orb_true_r. reflexivity.
+    + destruct (c_code c =? 1) eqn:E1.
+      * rewrite Hc by lia. cbn [N.eqb Pos.eqb andb orb r_asn r_hold r_mp4 r_mp6 r_fbasn].
+        rewrite !orb_assoc. reflexivity.
+      * cbn [andb orb]. reflexivity.
+Qed.
+
+Lemma open_caps_param o : open_caps o = concat (map param_caps (o_params o)).
+Proof. reflexivity. Qed.
+
+Lemma caps_only_wf ps : Forall caps_only ps -> Forall wf_cap (concat (map param_caps ps)).
+Proof.
+  induction 1 as [|p ps (cs & -> & Hcs) Hps IH]; [constructor|]. cbn [map concat param_caps].
+  apply Forall_app. split; assumption.
+Qed.
+
+(* For every well-formed OPEN (RFC 4271 4.2; [dec_msg] accepts it, C16_dec_ser)
+   whose optional parameters are all capabilities, followed by ANY further
+   bytes on the stream: readOpen succeeds, reports [understood o], and consumes
+   exactly the message. *)
+Theorem read_open_correct o extra :
+  wf_msg true (MOpen o) -> Forall caps_only (o_params o) ->
+  read_open (ser_msg true (MOpen o) ++ extra) = (ROk (understood o), len (ser_msg true (MOpen o))).
+Proof.
+  intros [Hlen (Hv & Hh & Hh' & Ha & Hid & _)] Hps.
+  rewrite ser_msg_len in Hlen. rewrite ser_msg_len.
+  unfold ser_msg. cbn [ser_body snd] in *.
+  set (P := concat (map ser_param (o_params o))) in *.
+  destruct (o_id o) as [|i1 [|i2 [|i3 [|i4 [|]]]]] eqn:Eid;
+    try (exfalso; unfold len in Hid; cbn [length] in Hid; lia). clear Hid.
+  set (body := [o_ver o] ++ u16 (o_asn o) ++ u16 (o_hold o) ++ [i1; i2; i3; i4] ++ [len P] ++ P) in *.
+  assert (Hb : len body = 10 + len P) by (unfold body; rewrite !len_app, !len_u16; cbn [len length N.of_nat]; lia).
+  set (L := 19 + len body) in *.
+  unfold read_open, read_open_gen. rewrite got0.
+  set (bs := (marker ++ u16 L ++ [1] ++ body) ++ extra).
+  assert (Hbs : len bs = L + len extra).
+  { unfold bs. rewrite !len_app, len_marker, len_u16. cbn [len length N.of_nat]. unfold L. lia. }
+  replace (N.min 19 (len bs)) with 19 by lia.
+  change (full_err 19 19) with (@None rerr). cbv iota.
+  change (takeN 19 bs) with (marker ++ u16 L ++ [1]).
+  change (dropN 19 bs) with (body ++ extra).
+  change (forallb (N.eqb 255) (firstn 16 (marker ++ u16 L ++ [1]))) with true.
+  change (nth 18 (marker ++ u16 L ++ [1]) 0) with 1.
+  change (be (firstn 2 (skipn 16 (marker ++ u16 L ++ [1]))) 0) with (b1 L * 256 + b0 L).
+  rewrite u16_val by lia.
+  cbn [negb N.eqb Pos.eqb]. cbv iota.
+  replace (L <? 29) with false by lia.
+  rewrite got1.
+  replace (N.min (L - 19) (N.min 10 (len (body ++ extra)))) with 10 by (rewrite len_app; lia).
+  change (full_err 10 10) with (@None rerr). cbv iota.
+  change (takeN 10 (body ++ extra)) with ([o_ver o] ++ u16 (o_asn o) ++ u16 (o_hold o) ++ [i1; i2; i3; i4] ++ [len P]).
+  change (dropN 10 (body ++ extra)) with (P ++ extra).
+  change (nth 0 ([o_ver o] ++ u16 (o_asn o) ++ u16 (o_hold o) ++ [i1; i2; i3; i4] ++ [len P]) 0) with (o_ver o).
+  change (be (firstn 2 (skipn 1 ([o_ver o] ++ u16 (o_asn o) ++ u16 (o_hold o) ++ [i1; i2; i3; i4] ++ [len P]))) 0)
+    with (b1 (o_asn o) * 256 + b0 (o_asn o)).
+  change (be (firstn 2 (skipn 3 ([o_ver o] ++ u16 (o_asn o) ++ u16 (o_hold o) ++ [i1; i2; i3; i4] ++ [len P]))) 0)
+    with (b1 (o_hold o) * 256 + b0 (o_hold o)).
+  rewrite !u16_val by assumption. rewrite Hv. cbn [negb N.eqb Pos.eqb]. cbv iota.
+  replace (negb (o_hold o =? 0) && (o_hold o <? 3)) with false by lia.
+  replace (L - 19 - 10) with (len P) by lia.
+  pose proof (length_params_le (o_params o)) as Hle. fold P in Hle.
+  unfold P. rewrite read_opts_ser by (assumption || (fold P; rewrite app_length; lia)). fold P.
+  rewrite fold_step_cap by (apply caps_only_wf; assumption).
+  rewrite <- open_caps_param. cbn [r_asn r_hold r_mp4 r_mp6 r_fbasn orb].
+  f_equal. rewrite Hbs. lia.
+Qed.
